@@ -25,6 +25,11 @@ func nameGen() *rapid.Generator[string] {
 			// letters whose lower-case form has another length in UTF-8, and other non-ASCII letters
 			n += rapid.SampledFrom([]string{"\u0130nce", "\u212a", "\u03a9", "\u1e9e", "\u00c5", "\u023a", "\u6f22", "\u00e9"}).Draw(t, "uni")
 		}
+		if rapid.IntRange(0, 5).Draw(t, "blanks") == 0 {
+			// blanks are part of a name ("#" is where the per-case suffix goes)
+			n = rapid.SampledFrom([]string{" %s#", "%s# ", "\t%s#", "%s#\n", " %s # ", "%s two words#", "%s#  "}).Draw(t, "blank-form")
+			n = strings.Replace(n, "%s", rapid.StringMatching(`[A-Za-z_-]{1,4}`).Draw(t, "stem"), 1)
+		}
 		// a bare name must not be a sub-package name (case-insensitively); the per-case numeric suffix guarantees that too
 		switch strings.ToLower(n) {
 		case "csv", "html", "json", "markdown", "texttable":
@@ -55,10 +60,10 @@ func caseGen() *rapid.Generator[Case] {
 				op.Which = rapid.IntRange(0, 5).Draw(t, "which")
 				switch op.Subject {
 				case "name", "builtin":
-					op.Form = rapid.SampledFrom([]string{"bare", "tt.", "Tt.", "TT.", "bare+trail"}).Draw(t, "form")
+					op.Form = rapid.SampledFrom([]string{"bare", "bare", "tt.", "Tt.", "TT.", "bare+trail", "pad"}).Draw(t, "form")
 					op.Trail = rapid.SampledFrom([]string{"compact", "x.y", "wide"}).Draw(t, "trail")
 				case "pkg":
-					op.Form = rapid.SampledFrom([]string{"bare", "flip", "trail", "flip+trail"}).Draw(t, "form")
+					op.Form = rapid.SampledFrom([]string{"bare", "flip", "trail", "flip+trail", "pad"}).Draw(t, "form")
 					op.Trail = rapid.SampledFrom([]string{"x", "x.y", "", "utf8-light", "caption=foo", "CSV", "..", "texttable.none"}).Draw(t, "trail")
 				case "texttable":
 					op.Form = rapid.SampledFrom([]string{"bare", "flip"}).Draw(t, "form")
